@@ -5,6 +5,7 @@ import (
 	"fmt"
 	"go/ast"
 	"go/printer"
+	"go/scanner"
 	"go/token"
 	"os"
 	"path/filepath"
@@ -21,96 +22,213 @@ var intTypes = map[string]bool{"int8": true, "int16": true, "int32": true, "int6
 	"uint8": true, "uint16": true, "uint32": true, "uint64": true, "uint": true, "byte": true}
 var signedTypes = map[string]bool{"int8": true, "int16": true, "int32": true, "int64": true, "int": true}
 
-const iter64Head = `{ var l = b.Len() if l == 0 { return 0 } var ( c = 0 cursor = pos dirIter = sparseMagic.Load() w = b ) if l > int(dirIter) { `
+// ---- comparison of a function body with an expected text, up to a consistent renaming of local identifiers
 
-func lit(s string) string { return regexp.QuoteMeta(s) }
+// localsOf collects the identifiers declared inside a function: receiver, parameters, results, `:=`, `var`, range.
+func localsOf(fd *ast.FuncDecl) map[string]bool {
+	locals := map[string]bool{}
+	addFields := func(fl *ast.FieldList) {
+		if fl == nil {
+			return
+		}
+		for _, f := range fl.List {
+			for _, id := range f.Names {
+				locals[id.Name] = true
+			}
+		}
+	}
+	addFields(fd.Recv)
+	addFields(fd.Type.Params)
+	addFields(fd.Type.Results)
+	ast.Inspect(fd.Body, func(x ast.Node) bool {
+		switch s := x.(type) {
+		case *ast.FuncLit:
+			addFields(s.Type.Params)
+			addFields(s.Type.Results)
+		case *ast.AssignStmt:
+			if s.Tok == token.DEFINE {
+				for _, l := range s.Lhs {
+					if id, ok := l.(*ast.Ident); ok {
+						locals[id.Name] = true
+					}
+				}
+			}
+		case *ast.ValueSpec:
+			for _, id := range s.Names {
+				locals[id.Name] = true
+			}
+		case *ast.RangeStmt:
+			if s.Tok == token.DEFINE {
+				for _, e := range []ast.Expr{s.Key, s.Value} {
+					if id, ok := e.(*ast.Ident); ok {
+						locals[id.Name] = true
+					}
+				}
+			}
+		}
+		return true
+	})
+	delete(locals, "_")
+	return locals
+}
 
-var iter64Dense = lit(" { if w&u64Tab[i] != 0 { if c >= n || c >= l { break } s[cursor] = ") + `(i|\w+\(i\))` +
-	lit(" + add cursor++ c++ w &= ^u64Tab[i] if w == 0 { break } } } } else { var i int for w != 0 { ")
-var iter64Sparse = lit(" if c >= n || c >= l { break } s[cursor] = ") + `(\w+)` + lit("(i) + add cursor++ c++ w &= ^u64Tab[i] } } return c }")
+type tok struct {
+	t   token.Token
+	lit string
+}
 
-var reIter64Fwd = regexp.MustCompile(`^` + lit(iter64Head) + `for i := (\w+)\(0\); i < 64; i\+\+` + iter64Dense +
-	lit(`i = bits.TrailingZeros64(uint64(w))`) + iter64Sparse + `$`)
-var reIter64Rev = regexp.MustCompile(`^` + lit(iter64Head) + `for i := (\w+)\(63\); i >= 0; i--` + iter64Dense +
-	lit(`i = bits.Len64(uint64(w)) - 1`) + iter64Sparse + `$`)
+func tokens(src string) []tok {
+	var sc scanner.Scanner
+	fs := token.NewFileSet()
+	b := []byte(src)
+	sc.Init(fs.AddFile("", fs.Base(), len(b)), b, nil, 0)
+	var out []tok
+	for {
+		_, t, l := sc.Scan()
+		if t == token.EOF {
+			return out
+		}
+		if t == token.SEMICOLON {
+			continue // statement separators are implied by the token sequence; inserted ones are not compared
+		}
+		if l == "" {
+			l = t.String()
+		}
+		out = append(out, tok{t, l})
+	}
+}
 
-// sigOK checks `func (b <recv>) Name(s []T, pos int, add T, n int) int`.
+// alphaEq: the token sequence of the actual text equals the expected one, except that identifiers declared locally in the
+// actual function may be renamed consistently (a bijection; selectors after `.` and all other identifiers must match
+// literally, and a local may not take the name of something else that occurs in the text).
+func alphaEq(actual, expected string, locals map[string]bool) bool {
+	a, e := tokens(actual), tokens(expected)
+	if len(a) != len(e) {
+		return false
+	}
+	fwd, bwd := map[string]string{}, map[string]string{}
+	for i := range a {
+		if a[i].t != e[i].t {
+			return false
+		}
+		if a[i].t != token.IDENT {
+			if a[i].lit != e[i].lit {
+				return false
+			}
+			continue
+		}
+		afterDot := i > 0 && a[i-1].t == token.PERIOD
+		x, y := a[i].lit, e[i].lit
+		if x != y && (afterDot || !locals[x]) {
+			return false
+		}
+		if afterDot {
+			continue
+		}
+		if m, ok := fwd[x]; ok && m != y {
+			return false
+		}
+		if m, ok := bwd[y]; ok && m != x {
+			return false
+		}
+		fwd[x], bwd[y] = y, x
+	}
+	return true
+}
+
+// bodyMatches compares the body of fd with an expected (white-space-normalised) body text up to local renaming.
+func bodyMatches(f *gofacts.File, fd *ast.FuncDecl, want string) bool {
+	if fd == nil || fd.Body == nil {
+		return false
+	}
+	return alphaEq(f.Src(fd.Body), want, localsOf(fd))
+}
+
+// sigOK checks `func (_ <recv>) Name(_ []T, _ int, _ T, _ int) int` (parameter names are free: they are locals).
 func sigOK(f *gofacts.File, fd *ast.FuncDecl, recv, elem string) bool {
 	if fd == nil || fd.Recv == nil || len(fd.Recv.List) != 1 {
 		return false
 	}
 	fl := fd.Recv.List[0]
-	if len(fl.Names) != 1 || fl.Names[0].Name != "b" || f.Src(fl.Type) != recv {
+	if len(fl.Names) != 1 || f.Src(fl.Type) != recv {
 		return false
 	}
-	return f.Src(fd.Type) == fmt.Sprintf("func(s []%s, pos int, add %s, n int) int", elem, elem)
+	var types []string
+	for _, p := range fd.Type.Params.List {
+		for range p.Names {
+			types = append(types, f.Src(p.Type))
+		}
+	}
+	res := ""
+	if fd.Type.Results != nil && len(fd.Type.Results.List) == 1 && len(fd.Type.Results.List[0].Names) == 0 {
+		res = f.Src(fd.Type.Results.List[0].Type)
+	}
+	return strings.Join(types, ",") == "[]"+elem+",int,"+elem+",int" && res == "int"
 }
 
-// valueOK: the written value is `i + add` with the loop variable of the element type, or `T(i) + add`.
-func valueOK(val, loopT, elem string) bool {
-	if val == "i" {
-		return loopT == elem
-	}
-	return val == elem+"(i)"
-}
-
-// Iter64Shape classifies one of the ten Bit64 iterator bodies.
-func Iter64Shape(f *gofacts.File, name, elem string, rev bool) (string, string) {
-	fd := f.Func("Bit64", name)
-	if !sigOK(f, fd, "Bit64", elem) {
-		return "unknown", name + ": signature"
-	}
-	body := f.Body("Bit64", name)
-	re, want := reIter64Fwd, "fwd"
+// paramNames returns the receiver and parameter names in order (the templates below are written with b, s, pos, add, n).
+func iterTemplate64(rev bool, loopT, dval, elem string) string {
+	loop, first := "for i := "+loopT+"(0); i < 64; i++", "i = bits.TrailingZeros64(uint64(w))"
 	if rev {
-		re, want = reIter64Rev, "rev"
+		loop, first = "for i := "+loopT+"(63); i >= 0; i--", "i = bits.Len64(uint64(w)) - 1"
 	}
-	m := re.FindStringSubmatch(body)
-	if m == nil {
-		return "unknown", name + ": body differs from the " + want + " template"
-	}
-	loopT, dval, sT := m[1], m[2], m[3]
-	if !intTypes[loopT] || (rev && !signedTypes[loopT]) || !valueOK(dval, loopT, elem) || sT != elem {
-		return "unknown", fmt.Sprintf("%s: loop type %s / dense value %s / sparse type %s do not fit element type %s", name, loopT, dval, sT, elem)
-	}
-	return want, ""
+	return `{ var l = b.Len() if l == 0 { return 0 } var ( c = 0 cursor = pos dirIter = sparseMagic.Load() w = b ) if l > int(dirIter) { ` + loop +
+		` { if w&u64Tab[i] != 0 { if c >= n || c >= l { break } s[cursor] = ` + dval + ` + add cursor++ c++ w &= ^u64Tab[i] if w == 0 { break } } } } else { var i int for w != 0 { ` + first +
+		` if c >= n || c >= l { break } s[cursor] = ` + elem + `(i) + add cursor++ c++ w &= ^u64Tab[i] } } return c }`
 }
 
-const iter1024Head = `{ var ( iterN = 0 left = n cursor = pos eIterN int ) `
-
-func iter1024Re(rev bool, callee string) *regexp.Regexp {
-	loop := `for i := (\w+)\(0\); i < L16; i\+\+`
+func iterTemplate1024(rev bool, callee, loopT, val string) string {
+	loop := "for i := " + loopT + "(0); i < L16; i++"
 	if rev {
-		loop = `for i := (\w+)\(L16 - 1\); i >= 0; i--`
+		loop = "for i := " + loopT + "(L16 - 1); i >= 0; i--"
 	}
-	return regexp.MustCompile(`^` + regexp.QuoteMeta(iter1024Head) + loop + regexp.QuoteMeta(` { if iterN >= n { break } eIterN = b[i].`+callee+`(s, cursor, B64*`) +
-		`(i|\w+\(i\))` + regexp.QuoteMeta(`+add, left) iterN += eIterN cursor += eIterN left = n - iterN } return iterN }`) + `$`)
+	return `{ var ( iterN = 0 left = n cursor = pos eIterN int ) ` + loop + ` { if iterN >= n { break } eIterN = b[i].` + callee +
+		`(s, cursor, B64*` + val + `+add, left) iterN += eIterN cursor += eIterN left = n - iterN } return iterN }`
 }
 
-func Iter1024Shape(f *gofacts.File, name, elem string, rev bool) (string, string) {
-	fd := f.Func("Bit1024", name)
-	if !sigOK(f, fd, "Bit1024", elem) {
-		return "unknown", name + ": signature"
-	}
+var loopTypes = []string{"int8", "int16", "int32", "int64", "int", "uint8", "uint16", "uint32", "uint64", "uint", "byte"}
+
+// iterShape: the body is the template for some admissible loop-variable type (any integer type going forward, a signed
+// one going backward — `i >= 0` must terminate) and value form (`i` when the loop variable has the element type,
+// `T(i)` otherwise or as well).
+func iterShape(f *gofacts.File, recv, name, elem string, rev bool, tmpl func(loopT, val string) string) (string, string) {
+	fd := f.Func(recv, name)
 	want := "fwd"
 	if rev {
 		want = "rev"
 	}
-	m := iter1024Re(rev, name).FindStringSubmatch(f.Body("Bit1024", name))
-	if m == nil {
-		return "unknown", "Bit1024." + name + ": body differs from the " + want + " template"
+	if !sigOK(f, fd, recv, elem) {
+		return "unknown", recv + "." + name + ": signature"
 	}
-	loopT, val := m[1], m[2]
-	if !intTypes[loopT] || (rev && !signedTypes[loopT]) || !valueOK(val, loopT, elem) {
-		return "unknown", fmt.Sprintf("Bit1024.%s: loop type %s / offset operand %s do not fit element type %s", name, loopT, val, elem)
+	for _, lt := range loopTypes {
+		if rev && !signedTypes[lt] {
+			continue
+		}
+		vals := []string{elem + "(i)"}
+		if lt == elem {
+			vals = append(vals, "i")
+		}
+		for _, v := range vals {
+			if bodyMatches(f, fd, tmpl(lt, v)) {
+				return want, ""
+			}
+		}
 	}
-	return want, ""
+	return "unknown", recv + "." + name + ": body differs from the " + want + " template"
 }
 
-// BodyIs compares a normalised body with the expected text.
+// Iter64Shape classifies one of the ten Bit64 iterator bodies.
+func Iter64Shape(f *gofacts.File, name, elem string, rev bool) (string, string) {
+	return iterShape(f, "Bit64", name, elem, rev, func(lt, v string) string { return iterTemplate64(rev, lt, v, elem) })
+}
+
+func Iter1024Shape(f *gofacts.File, name, elem string, rev bool) (string, string) {
+	return iterShape(f, "Bit1024", name, elem, rev, func(lt, v string) string { return iterTemplate1024(rev, name, lt, v) })
+}
+
+// BodyIs compares a function body with the expected text (white space and local identifier names are free).
 func BodyIs(f *gofacts.File, recv, name, want string) (string, string) {
-	got := f.Body(recv, name)
-	if got == gofacts.Norm(want) {
+	if bodyMatches(f, f.Func(recv, name), want) {
 		return "ok", ""
 	}
 	n := name
@@ -287,11 +405,12 @@ func firstGuard(f *gofacts.File, fd *ast.FuncDecl) (string, bool) {
 type BaseCfg struct {
 	Magic    string
 	B64, L16 string
+	L128     string
 	OK       bool
 	Note     string
 }
 
-var reMagic = regexp.MustCompile(`sparseMagic = atomic\.NewInt32\((-?\d+)\)`)
+var reMagic = regexp.MustCompile(`sparseMagic = atomic\.NewInt32\((-?\d+|[A-Za-z_]\w*)\)`)
 
 // Base extracts the constants both properties depend on.
 func Base(repo string) BaseCfg {
@@ -315,6 +434,19 @@ func Base(repo string) BaseCfg {
 		return c
 	}
 	c.Magic = m[0][1]
+	if c.Magic[0] != '-' && (c.Magic[0] < '0' || c.Magic[0] > '9') {
+		// a named constant of the internal package
+		ip, err := go2lean.LoadPkg(repo, "bitmap1024/internal")
+		v, ok := "", false
+		if err == nil {
+			v, ok = ip.ConstValue(c.Magic)
+		}
+		if !ok {
+			c.Note = "sparseMagic initialiser " + c.Magic + " is not an integer constant"
+			return c
+		}
+		c.Magic = v
+	}
 	p, err := go2lean.LoadPkg(repo, "bitmap1024")
 	if err != nil {
 		c.Note = err.Error()
@@ -323,8 +455,10 @@ func Base(repo string) BaseCfg {
 	var ok1, ok2 bool
 	c.B64, ok1 = p.ConstValue("B64")
 	c.L16, ok2 = p.ConstValue("L16")
-	if !ok1 || !ok2 {
-		c.Note = "constants B64/L16 not found"
+	var ok3 bool
+	c.L128, ok3 = p.ConstValue("L128")
+	if !ok1 || !ok2 || !ok3 {
+		c.Note = "constants B64/L16/L128 not found"
 		return c
 	}
 	c.OK = true
@@ -395,7 +529,13 @@ func ExtractC08(repo, leanDir string) {
 	if p, err := go2lean.LoadPkg(repo, "bitmap1024/internal"); err != nil {
 		kerrs = append(kerrs, "internal: "+err.Error())
 	} else {
-		p.Subst["u64Tab[i]"] = U64TabSubst
+		for _, m := range []string{"Set", "Unset"} {
+			// keyed by the method's own parameter name, so that renaming it does not make the kernel untranslatable
+			if fd := f64.Func("Bit64", m); fd != nil && len(fd.Type.Params.List) == 1 && len(fd.Type.Params.List[0].Names) == 1 {
+				pn := fd.Type.Params.List[0].Names[0].Name
+				p.Subst["u64Tab["+pn+"]"] = go2lean.SubstRule{Lean: "1#64 <<< " + pn + ".toNat", Why: U64TabSubst.Why}
+			}
+		}
 		kerrs = append(kerrs, go2lean.SortedErrs(p.TranslateAll("Bit64.Set", "Bit64.Unset"))...)
 		kernels.WriteString(p.Emit())
 	}
@@ -441,17 +581,16 @@ func ExtractC08(repo, leanDir string) {
 // ---------------------------------------------------------------- C09
 
 func classifyOffset(arg string) string {
-	switch gofacts.Norm(arg) {
-	case "int64(b.Start*C1K)", "int64(b.Start * C1K)", "int64(C1K*b.Start)":
+	switch strings.ReplaceAll(gofacts.Norm(arg), " ", "") {
+	case "int64(b.Start*C1K)", "int64(C1K*b.Start)":
 		return "u32mul"
-	case "int64(b.Start)*C1K", "int64(b.Start) * C1K", "C1K*int64(b.Start)", "C1K * int64(b.Start)":
-		return "i64mul"
+	case "int64(b.Start)*C1K", "C1K*int64(b.Start)", "int64(b.Start)<<10":
+		return "i64mul" // exact 64-bit product; the kernel tie proves `toNat = Start*1024` for whichever spelling it is
 	}
 	return "unknown"
 }
 
-var reDispatch = regexp.MustCompile(`if reverse \{ iterN = b\.(R?)IterAsU32\(s, 0, n\) \} else \{ iterN = b\.(R?)IterAsU32\(s, 0, n\) \}`)
-var reSparseBelow = regexp.MustCompile(`if n < (\d+) \{ var buf = make\(\[\]byte, n\*2\)`)
+var reSparseBelow = regexp.MustCompile(`if \w+ < (\d+) \{ var \w+ = make\(\[\]byte, \w+\*2\)`)
 
 const marshalBody = `{ var n = b.Len() if n == 0 { return nil } if n < NNN { var buf = make([]byte, n*2) var s = b.GetNAsI16(n) for i := 0; i < n; i++ { binary.LittleEndian.PutUint16(buf[i*2:], uint16(s[i])) } return buf } var buf = make([]byte, L128) for i := 0; i < L16; i++ { binary.LittleEndian.PutUint64(buf[i*8:], uint64(b[i])) } return buf }`
 const unmarshalBody = `{ var n = len(buf) if n == 0 { return nil } if n > L128 { return fmt.Errorf("bit.1024.out.of.range:%+v", n) } if n%2 != 0 { return fmt.Errorf("bit.1024.invalid.length:%+v", n) } if n < L128 { var en = n / 2 for i := 0; i < en; i++ { var i16 = int16(binary.LittleEndian.Uint16(buf[i*2:])) if i16 < 0 || i16 > 1023 { return fmt.Errorf("bit.1024.invalid.element:%+v", i16) } b.SetI16(i16) } return nil } for i := 0; i < L16; i++ { var b64 = Bit64(binary.LittleEndian.Uint64(buf[i*8:])) b[i] = b64 } return nil }`
@@ -479,14 +618,15 @@ func ExtractC09(repo, leanDir string) {
 	if okR {
 		roffset = classifyOffset(argR)
 	}
+	// dispatch of U32BitTip.getNAsU32: which whole-body template (see below) the function is
+	tipTmpl := func(first, second string) string {
+		return "{ var s = make([]uint32, n) var iterN int if reverse { iterN = b." + first + "(s, 0, n) } else { iterN = b." + second + "(s, 0, n) } if iterN == 0 { return nil } return s[:iterN] }"
+	}
 	dispatch := "unknown"
-	if m := reDispatch.FindStringSubmatch(ft.Body("U32BitTip", "getNAsU32")); m != nil {
-		switch {
-		case m[1] == "R" && m[2] == "":
-			dispatch = "straight"
-		case m[1] == "" && m[2] == "R":
-			dispatch = "swapped"
-		}
+	if sh, _ := BodyIs(ft, "U32BitTip", "getNAsU32", tipTmpl("RIterAsU32", "IterAsU32")); sh == "ok" {
+		dispatch = "straight"
+	} else if sh, _ := BodyIs(ft, "U32BitTip", "getNAsU32", tipTmpl("IterAsU32", "RIterAsU32")); sh == "ok" {
+		dispatch = "swapped"
 	}
 	c1k, sparseBelow := "0", "0"
 	if p, err := go2lean.LoadPkg(repo, "bitmap1024"); err == nil {
@@ -539,6 +679,23 @@ func ExtractC09(repo, leanDir string) {
 	tipIter.add(BodyIs(ft, "U32BitTips", "GetNAsU32", listGetNBody("uint32", "eIterN = b[i].IterAsU32(s, pos, left)", "", false)))
 	tipIter.add(BodyIs(ft, "U32BitTips", "RGetNAsU32", strings.Replace(listGetNBody("uint32", "eIterN = b[i].RIterAsU32(s, pos, left)", "", false), "for i := 0; i < l; i++", "for i := l - 1; i >= 0; i--", 1)))
 	tipIter.add(BodyIs(ft, "U32BitTips", "Reverse", listRev("U32BitTips", "U32BitTip")))
+	// whole bodies of the single-block iterators: exactly one call, with the receiver's bitmap, s, pos, <offset>, n
+	if okF {
+		bigGetN.add(BodyIs(fb, "BigU32", "IterAsI64", "{ return b.B1024.IterAsI64(s, pos, "+gofacts.Norm(argF)+", n) }"))
+	} else {
+		bigGetN.add("unknown", "BigU32.IterAsI64: not a single call of b.B1024.IterAsI64")
+	}
+	if okR {
+		bigGetN.add(BodyIs(fb, "BigU32", "RIterAsI64", "{ return b.B1024.RIterAsI64(s, pos, "+gofacts.Norm(argR)+", n) }"))
+	} else {
+		bigGetN.add("unknown", "BigU32.RIterAsI64: not a single call of b.B1024.RIterAsI64")
+	}
+	// U32BitTip.getNAsU32: the whole body is one of the two dispatch templates (which one is the Cfg fact `tipDispatch`)
+	if dispatch != "unknown" {
+		tipIter.add("ok", "")
+	} else {
+		tipIter.add("unknown", "U32BitTip.getNAsU32: body is neither dispatch template")
+	}
 	for _, s := range []*shapes{&bigCtor, &bigGetN, &tipCtor, &tipIter} {
 		devs = append(devs, s.devs...)
 	}
@@ -602,7 +759,11 @@ func ExtractC09(repo, leanDir string) {
 	emit, errs := syn.Translate(keys...)
 	kerrs := append(append([]string{}, syn.Errs...), go2lean.SortedErrs(errs)...)
 
-	cfg := fmt.Sprintf("⟨%s, .%s, .%s, .%s, %s, %s⟩", base.Lean(), offset, roffset, dispatch, c1k, sparseBelow)
+	l128 := base.L128
+	if l128 == "" {
+		l128 = "0"
+	}
+	cfg := fmt.Sprintf("⟨%s, .%s, .%s, .%s, %s, %s, %s⟩", base.Lean(), offset, roffset, dispatch, c1k, sparseBelow, l128)
 	out := "import Nv.Model.C09\nset_option linter.unusedVariables false\n" +
 		"/-! GENERATED by `c09 extract` from bitmap1024/{bit1024,bigu32,u32bittip}.go + internal/bit64.go — do not edit. -/\n" +
 		"namespace Nv.Gen.C09\n" +
@@ -617,4 +778,6 @@ func ExtractC09(repo, leanDir string) {
 		os.Exit(2)
 	}
 	fmt.Printf("extract C09: cfg=%s deviations=%v untranslatable=%v\n", cfg, devs, kerrs)
+	// the C09 theorems are built on the C08 model: regenerate its facts and kernels too (Nv/Tie/C09 re-checks them)
+	ExtractC08(repo, leanDir)
 }
